@@ -484,7 +484,7 @@ func TestPropStatementAfterFault(t *testing.T) {
 
 type secondCase struct {
 	Kind   string `json:"kind"`   // second-tx
-	First  string `json:"first"`  // how the first local transaction ends: commit | rollback | register-refused
+	First  string `json:"first"`  // how the first local transaction ends: commit | rollback | register-refused; plain-commit | plain-rollback = it is an ordinary local transaction before the global one, and the second statement runs in autocommit
 	Stmt1  string `json:"stmt1"`  // update | insert | delete
 	Second string `json:"second"` // read-only | write-other-table | write-same-row
 }
@@ -517,12 +517,12 @@ func runSecondTx(c secondCase) *pt.Failure {
 		q2 := map[string]string{"read-only": "SELECT v FROM " + t2 + " WHERE id = 2", "write-other-table": "UPDATE " + t2 + " SET v = v + 5 WHERE id = 2", "write-same-row": "UPDATE " + t1 + " SET v = v + 5 WHERE id = 1"}[c.Second]
 		var steps []string
 		var boundary int64
-		_, _ = atenv.Global("c02-second", func(cx context.Context) error {
-			conn, err := env.AT.Conn(cx)
-			if err != nil {
-				return err
-			}
-			defer conn.Close()
+		conn, err := env.AT.Conn(context.Background())
+		if err != nil {
+			return pt.Failf("C02/harness/setup", "%v", err)
+		}
+		defer conn.Close()
+		first := func(cx context.Context) error {
 			tx, err := conn.BeginTx(cx, nil)
 			if err != nil {
 				steps = append(steps, "begin1: "+err.Error())
@@ -530,7 +530,7 @@ func runSecondTx(c secondCase) *pt.Failure {
 			}
 			_, err = tx.ExecContext(cx, q1)
 			steps = append(steps, fmt.Sprintf("stmt1 err=%v", err))
-			if c.First == "rollback" {
+			if strings.HasSuffix(c.First, "rollback") {
 				err = tx.Rollback()
 			} else {
 				err = tx.Commit()
@@ -539,7 +539,37 @@ func runSecondTx(c secondCase) *pt.Failure {
 			if j := env.Srv.Journal(); len(j) > 0 {
 				boundary = j[len(j)-1].Seq
 			}
-			tx, err = conn.BeginTx(cx, nil)
+			return nil
+		}
+		plainFirst := strings.HasPrefix(c.First, "plain-")
+		if plainFirst {
+			// the first local transaction is an ordinary one, outside any global transaction
+			if err := first(context.Background()); err != nil {
+				return pt.Failf("C02/harness/setup", "%v", err)
+			}
+		}
+		_, _ = atenv.Global("c02-second", func(cx context.Context) error {
+			if plainFirst {
+				// … and the same connection then runs an autocommit statement inside a global transaction
+				var err error
+				if c.Second == "read-only" {
+					rows, e := conn.QueryContext(cx, q2)
+					if e == nil {
+						for rows.Next() {
+						}
+						rows.Close()
+					}
+					err = e
+				} else {
+					_, err = conn.ExecContext(cx, q2)
+				}
+				steps = append(steps, fmt.Sprintf("stmt2 (autocommit) err=%v", err))
+				return nil
+			}
+			if err := first(cx); err != nil {
+				return err
+			}
+			tx, err := conn.BeginTx(cx, nil)
 			if err != nil {
 				steps = append(steps, "begin2: "+err.Error())
 				return err
@@ -626,7 +656,7 @@ func keysOf(m map[string]bool) []string {
 
 func TestPropSecondLocalTx(t *testing.T) {
 	ctx.Check(t, func(rt *rapid.T) {
-		c := secondCase{Kind: "second-tx", First: rapid.SampledFrom([]string{"commit", "rollback", "register-refused"}).Draw(rt, "first"),
+		c := secondCase{Kind: "second-tx", First: rapid.SampledFrom([]string{"commit", "rollback", "register-refused", "plain-commit", "plain-rollback"}).Draw(rt, "first"),
 			Stmt1: rapid.SampledFrom([]string{"update", "insert", "delete"}).Draw(rt, "stmt1"), Second: rapid.SampledFrom([]string{"read-only", "write-other-table", "write-same-row"}).Draw(rt, "second")}
 		fl := runSecondTx(c)
 		ctx.Rec.Case("second-tx", true, fmt.Sprintf("second-tx|%s|%s|%s", c.First, c.Stmt1, c.Second), c, "kind:second-tx")
